@@ -45,6 +45,19 @@ CHECKS = {
         note='filter/group use injected-attribute Tract subclasses; filter_errors/filter_duplicates/construction use real Tract/'
              'TRS/PLSSDesc objects chosen by symbolic index from small tables. PLSSDesc is an acceptable *source* for '
              'from_multiple (documented) and contributes its tracts.'),
+    'C19': dict(
+        engine='S', category='other', design_ref='DESIGN.md §4 C19',
+        technique='CrossHair symbolic execution of the real export methods (to_dict/to_list, tracts_to_dict/list, iter_*, '
+                  'tracts_to_csv, TractWriter) over symbolic choices of description, attribute-name lists, header option and '
+                  'file mode; path tree exhausted; csv.writer/open replaced by in-memory recorders',
+        text='Every name in Tract.ATTRIBUTES plus unknown names, alone and in lists of 2 (3 thorough) in any order, through '
+             'every record path and both csv writers (new file / append, 4 header options), on a corpus whose tracts carry '
+             'lots with acreages, lot divisions, duplicate lots, flags with context tuples, multi-line text, commas and '
+             'quotes: one record/row per tract in order, values equal to getattr (or the "n/a" placeholder), list/dict '
+             'cells joined into one string, header row iff a new file.',
+        note='The C csv module (quoting) and the file system are outside the encoding: they are exercised only when a '
+             'counterexample is replayed (real file written and read back with csv.reader). Tract contents come from 4 '
+             'concrete descriptions; the symbolic part is the choice structure.'),
 }
 
 NOT_YET = 'check not built yet in this round (see DESIGN.md §9 build order)'
